@@ -35,7 +35,9 @@ func didQueryRules(p *Prog, r *Report, m *didModel, clause string, wantLife, wan
 			if get.Op == "call" && len(get.Args) >= 3 {
 				did = get.Args[2]
 			}
-			ok := did != nil && did.Contains(func(x *Term) bool { return x.Op == "field" && x.Name == "DidBase64" || strings.HasSuffix(x.String(), "req.DidBase64") })
+			ok := did != nil && did.Contains(func(x *Term) bool {
+				return x.Op == "field" && x.Name == "DidBase64" || strings.HasSuffix(x.String(), "req.DidBase64")
+			})
 			if ok {
 				did.Walk(func(x *Term) {
 					if x.Op == "call" && !strings.HasSuffix(x.Name, "encoding/base64.Encoding).DecodeString") {
